@@ -1,5 +1,6 @@
 """C07 — reporting backends receive a well-formed event stream. Props/C07.v; ProtocolP.v, SchedP.v."""
 import engine
+import projgen
 import propcommon
 import runoracle
 
@@ -98,6 +99,26 @@ def check(run):
         run.count("interrupted_runs_with_user_threads")
         if any(a[1] == "spawn" for a in (r.get("trace") or [])):
             run.count("interrupted_runs_in_which_a_user_thread_was_started")
+        for sig, text in runoracle.c07_oracle(c, r):
+            run.violation(sig, text, {"case": c, "outcome": r.get("outcome")})
+    # ... and with ONE worker: while the interrupted test is still running, nothing of another test or suite may reach the
+    # backends (the remaining tasks are skipped by the worker, after it)
+    nohooks = {"setup_suite": None, "teardown_suite": None, "setup_test": None, "teardown_test": None}
+    scases = []
+    for k in range(12 if run.tier == "quick" else 120):
+        tests = [{"name": "t%d" % (10 + i), "disabled": False, "rank": i, "deps": [], "args": [], "params": {},
+                  "body": [["log", 1, 1], ["mark", 1], ["mark", 2], ["log", 1, 2], ["mark", 3], ["log", 1, 3]]} for i in range(3)]
+        subs = [{"name": "s8", "disabled": False, "rank": 0, "hooks": nohooks, "injected": [], "subs": [],
+                 "tests": [{"name": "t20", "disabled": False, "rank": 0, "deps": [], "args": [], "params": {}, "body": [["log", 1, 4]]}]}] if k % 2 else []
+        scases.append({"id": "eone%d" % k, "project": {"fixtures": [], "suites": [
+            {"name": "s6", "disabled": False, "rank": 0, "hooks": nohooks, "injected": [], "tests": tests, "subs": subs}]},
+            "sched": projgen.gen_sched(run.rng, "random"), "interrupt_at": 1 + k % 3,
+            "options": {"nb_threads": 1, "stop_on_failure": False, "force_disabled": False}})
+    sres = sim.run_cases(scases)
+    for c in scases:
+        r = sres.get(c["id"]) or {"outcome": ["hang", "no result"]}
+        run.evaluations += 1
+        run.count("interrupted_runs_with_one_worker")
         for sig, text in runoracle.c07_oracle(c, r):
             run.violation(sig, text, {"case": c, "outcome": r.get("outcome")})
     run.coverage["rule"] = ("seeded random projects with user threads, empty steps and empty setup phases, 1..4 (thorough ..8) threads, "
